@@ -238,6 +238,9 @@ func executeDefault(r *Runner) error {
 		if r.debug {
 			r.dumpState()
 		}
+		if verifOn {
+			verifTraceStep(r)
+		}
 
 		if !r.ignoreTimeout {
 			if err := r.CheckTimeout(); err != nil {
